@@ -794,3 +794,4 @@ def _unstack(a, axis, **k):
         p = np.take(a, i, axis=axis)
         outs.append(p if isinstance(p, np.ndarray) else _scalar_arr(p))
     return outs
+RULES["device_put"] = lambda *xs, **k: list(xs)
